@@ -34,6 +34,9 @@ func init() {
 			"storage values are compared as big-endian numbers (leading zero bytes stripped), which is how the trie stores them",
 			"Prepare(thash) is re-issued on a fresh Copy (Copy does not carry the current tx hash; not an observable named by the property)",
 			"address 0x03 (RIPEMD consensus exception of the journal) is not in the universe",
+			"credits is a learned observable: its value after an operation is taken from the target state; only restoration by revert, inheritance by Copy and non-interference are demanded",
+			"three usage patterns outside what the application and upstream do are confined to ~1/5 of the runs each and reported under their own keys: CreateAccount over an existing account untouched since the last finalisation (hazard/createaccount-over-untouched-account), IntermediateRoot/Finalise on a Copy of a state with unfinalised changes (hazard/copy-of-unfinalised-state-finalised), revert of the first write of a token key / of a Suicide with zero-valued token entries (twinroot/tokens-zero-entry); in the other runs the generator avoids them",
+			"when a listed known finding is hit, the state that no longer follows its model is retired and the run continues with the remaining live states",
 		},
 		QuickRuns: 30000, QuickBudget: 55 * time.Second,
 		ThoroughRuns: 600000, ThoroughBudget: 14 * time.Minute,
